@@ -59,7 +59,12 @@ def handleIO (op : String) (j : Json) : Option (IO (Except String Json)) :=
         pure (.ok (jobj [("classes", jarr (classes.map fun c =>
           jobj [("name", jstr c.name), ("derived", jnat (deriveClass mods c).length),
                 ("functional", jbool (functional (deriveClass mods c))),
-                ("emptyKey", jbool (lookupClass mods c foldAsciiU [] |>.isSome))]))]))
+                ("emptyKey", jbool (lookupClass mods c foldAsciiU [] |>.isSome)),
+                ("unitsDistinct", jbool (unitsDistinct mods c foldAsciiU)),
+                ("nonEmptyKeys", jbool ((deriveClass mods c).all fun a => a.key != [])),
+                ("nameKeysFolded", jbool ((deriveClass mods c).all fun a => isSymD c a || foldAsciiU a.key == a.key)),
+                ("symbolsApart", jbool ((deriveClass mods c).all fun a => !isSymD c a ||
+                    (deriveClass mods c).all fun b => isSymD c b || foldAsciiU a.key != b.key))]))]))
   | "c11.eval" => some do
       match (do pure (← getString j "schema", ← (← getArr j "classes").mapM asStr, ← getBool j "numeric",
                       ← getStr j "ext") : Except String _) with
